@@ -1,4 +1,5 @@
 pub mod pq;
+pub mod queue;
 pub mod sched;
 pub mod sinks;
 pub mod synccell;
